@@ -249,6 +249,74 @@ func genCacheControl(r *rand.Rand) (val string, forbid bool, maxAge int64) {
 	return strings.Join(parts, ","), forbid, 0
 }
 
+// httpHeadProbe (C13, C14; monitor only): requests the handler-script model does not generate. (1) HEAD responses and a
+// 304 that announce a Content-Length different from the bytes written: a hit must replay the same headers; (2) with
+// CacheableMethods = [GET] and a key generator that ignores the method, a HEAD request must reach the handler and must
+// neither be answered from nor populate the cache.
+func httpHeadProbe(m *meta) {
+	same := func(a, b http.Header, skip map[string]bool) (string, bool) {
+		for k, v := range a {
+			if skip[k] {
+				continue
+			}
+			if w := b[k]; strings.Join(v, "|") != strings.Join(w, "|") {
+				return fmt.Sprintf("%s: origin %q, hit %q", k, v, w), false
+			}
+		}
+		for k := range b {
+			if !skip[k] && a[k] == nil {
+				return fmt.Sprintf("%s: only on the hit", k), false
+			}
+		}
+		return "", true
+	}
+	skip := map[string]bool{"X-Cache": true, "X-Cache-Date": true, "X-Cache-Age": true, "Date": true}
+	// (1)
+	mw, err := httpcache.New(httpcache.Config{MaxSize: 100, ShardCount: 1, EvictionPolicy: kioshun.LRU, DefaultTTL: time.Hour, DisableCleanup: true, CacheableStatus: []int{200, 304}})
+	must(err)
+	calls := 0
+	h := mw.Wrap(http.HandlerFunc(func(w http.ResponseWriter, rq *http.Request) {
+		calls++
+		w.Header().Set("Content-Length", "1234")
+		w.Header().Set("X-Cache-Tags", "t1")
+		if rq.URL.Path == "/nm" {
+			w.WriteHeader(http.StatusNotModified)
+			return
+		}
+		w.WriteHeader(http.StatusOK)
+	}))
+	for _, rq := range [][2]string{{"HEAD", "/head"}, {"GET", "/nm"}} {
+		first, second := httptest.NewRecorder(), httptest.NewRecorder()
+		h.ServeHTTP(first, httptest.NewRequest(rq[0], rq[1], nil))
+		h.ServeHTTP(second, httptest.NewRequest(rq[0], rq[1], nil))
+		if second.Header().Get("X-Cache") == "HIT" {
+			if first.Code != second.Code {
+				m.violate("C14", fmt.Sprintf("%s %s: origin status %d, hit status %d", rq[0], rq[1], first.Code, second.Code), "head probe")
+			}
+			if d, ok := same(first.Header(), second.Header(), skip); !ok {
+				m.violate("C14", fmt.Sprintf("%s %s (handler announces Content-Length 1234 and writes no body): hit headers differ from the origin response: %s", rq[0], rq[1], d), "head probe")
+			}
+			m.count("head_probe_hits")
+		}
+	}
+	mw.Close()
+	// (2)
+	mw2, err := httpcache.New(httpcache.Config{MaxSize: 100, ShardCount: 1, EvictionPolicy: kioshun.LRU, DefaultTTL: time.Hour, DisableCleanup: true, CacheableMethods: []string{"GET"}})
+	must(err)
+	mw2.SetKeyGenerator(func(r *http.Request) string { return r.URL.String() })
+	n := 0
+	h2 := mw2.Wrap(http.HandlerFunc(func(w http.ResponseWriter, rq *http.Request) { n++; w.Write([]byte("body")) }))
+	h2.ServeHTTP(httptest.NewRecorder(), httptest.NewRequest("GET", "/x", nil))
+	before := n
+	rec := httptest.NewRecorder()
+	h2.ServeHTTP(rec, httptest.NewRequest("HEAD", "/x", nil))
+	if n != before+1 || rec.Header().Get("X-Cache") != "" {
+		m.violate("C13", fmt.Sprintf("CacheableMethods=[GET]: a HEAD request was handled by the cache (handler reached: %v, X-Cache=%q); a method that is not configured as cacheable must bypass it", n == before+1, rec.Header().Get("X-Cache")), "head probe")
+	}
+	mw2.Close()
+	m.count("head_probes")
+}
+
 func streamHTTP(o opts) {
 	r := newRand(o.seed, "http")
 	m := newMeta("http", o.seed)
@@ -262,7 +330,7 @@ func streamHTTP(o opts) {
 		cfg := httpcache.Config{
 			MaxSize: 100000, ShardCount: 4, EvictionPolicy: kioshun.LRU, DefaultTTL: time.Hour + 1,
 			MaxBodySize: maxBody, DisableCleanup: true,
-			IgnoreHeaders: pick(r, [][]string{nil, {"Date", "Server", "x-request-id"}, {"Set-Cookie"}}),
+			IgnoreHeaders: pick(r, [][]string{nil, {"Date", "Server", "x-request-id"}, {"Set-Cookie"}, {"Cache-Control", "Date"}, {"expires", "cache-control"}}),
 		}
 		if r.Intn(5) == 0 {
 			cfg.DisableBodySizeLimit = true
@@ -416,7 +484,7 @@ func streamHTTP(o opts) {
 						flagSecondLine = true
 					}
 				case 2:
-					acts = append(acts, hact{kind: 1, k: pick(r, []string{"Content-Type", "X-Custom", "Set-Cookie", "Server", "X-Request-Id", "x-lower", "X-Lower"}), v: pick(r, []string{"text/plain", "a=1", "v"})})
+					acts = append(acts, hact{kind: 1, k: pick(r, []string{"Content-Type", "X-Custom", "Set-Cookie", "Server", "X-Request-Id", "x-lower", "X-Lower", "X-Cache-Tags", "X-Cacheable"}), v: pick(r, []string{"text/plain", "a=1", "v"})})
 				case 3:
 					acts = append(acts, hact{kind: 2, k: "X-Multi", v: fmt.Sprint(r.Intn(9))})
 				case 4:
@@ -724,6 +792,7 @@ func streamHTTP(o opts) {
 	}
 	w.Close()
 	m.Traces, m.Ops = w.traces, w.ops
+	httpHeadProbe(m)
 	m.write(o.out)
 }
 
